@@ -25,6 +25,7 @@ SCHEMA = {
     "Array": {"_dtype": PYOBJ},
 }
 META = {
+    "lean": ['Dag.lean'],
     "level": "proof",
     "trusted_base": [
         "lists/sets of nodes abstracted to relations (order and multiplicity dropped); weakref.ref(x)() is x (no garbage collection of a parent during an operation)",
